@@ -163,6 +163,8 @@ pub enum SendErr {
     UnexpectedRelease,
     StreamingCancelled,
     Disconnected,
+    /// non-blocking send attempted while the sink is not ready (the harness does not call the API then)
+    NotReady,
 }
 
 pub fn send_err(e: ntex_mqtt::error::SendPacketError) -> SendErr {
@@ -191,6 +193,7 @@ pub struct Eut5 {
     pub sink: Rc<RefCell<Option<v5::MqttSink>>>,
     pub receipts: Rc<RefCell<Vec<Option<Receipt>>>>,
     pub streams: Rc<RefCell<Vec<Option<StreamFn>>>>,
+    pub noblock: Rc<NoBlock>,
 }
 
 fn stop_kind(r: &Reason<AppErr>) -> StopKind {
@@ -499,6 +502,7 @@ impl Eut5 {
             sink: Rc::new(RefCell::new(None)),
             receipts: Rc::new(RefCell::new(Vec::new())),
             streams: Rc::new(RefCell::new(Vec::new())),
+            noblock: Rc::new(NoBlock::default()),
         }
     }
 
@@ -720,6 +724,35 @@ pub enum SendKind {
     Unsubscribe,
     /// `MqttSink::ready()`
     Ready,
+    /// QoS 1 through the non-blocking API: `publish_ack_cb` + `send_at_least_once_no_block` (called only when
+    /// `is_ready()`); the harness future resolves when the callback reports the acknowledgement
+    NoBlock,
+}
+
+/// state of the non-blocking publish API of one connection: acknowledgements reported by `publish_ack_cb`,
+/// in order; the k-th non-blocking publish is answered by the k-th callback (acknowledgements arrive in order)
+#[derive(Default)]
+pub struct NoBlock {
+    pub registered: Cell<bool>,
+    pub sent: Cell<usize>,
+    pub acks: RefCell<Vec<(s5::Ack5, bool)>>,
+    /// the callback touches the sink again (is_ready / credit), as an application that sends the next message would
+    pub reenter: Cell<bool>,
+}
+
+pub fn noblock_future(nb: Rc<NoBlock>, res: Result<(), SendErr>) -> BoxFut<SendRes> {
+    match res {
+        Err(e) => Box::pin(async move { SendRes::Err(e) }),
+        Ok(()) => {
+            let k = nb.sent.get();
+            nb.sent.set(k + 1);
+            Box::pin(std::future::poll_fn(move |_| match nb.acks.borrow().get(k) {
+                Some((a, false)) => std::task::Poll::Ready(SendRes::PubAck(a.clone())),
+                Some((_, true)) => std::task::Poll::Ready(SendRes::Err(SendErr::Disconnected)),
+                None => std::task::Poll::Pending,
+            }))
+        }
+    }
 }
 
 pub struct SendSpec {
@@ -750,6 +783,30 @@ impl Eut5 {
                         Err(e) => SendRes::Err(send_err(e)),
                     }
                 })
+            }
+            SendKind::NoBlock => {
+                if !sink.is_ready() {
+                    return Box::pin(async { SendRes::Err(SendErr::NotReady) });
+                }
+                let nb = self.noblock.clone();
+                if !nb.registered.replace(true) {
+                    let (nb2, sink2) = (nb.clone(), sink.clone());
+                    sink.publish_ack_cb(move |ack, disconnected| {
+                        if nb2.reenter.get() {
+                            let _ = (sink2.is_ready(), sink2.credit(), sink2.is_open());
+                        }
+                        nb2.acks.borrow_mut().push((ack_from(&ack), disconnected));
+                    });
+                }
+                let mut b = sink.publish(ByteString::from(spec.topic));
+                if let Some(id) = spec.pid {
+                    b = b.packet_id(id);
+                }
+                if let Some((k, v)) = spec.user_prop {
+                    b = b.properties(|p| p.user_properties.push((ByteString::from(k), ByteString::from(v))));
+                }
+                let r = b.send_at_least_once_no_block(Bytes::from(spec.payload)).map_err(send_err);
+                noblock_future(nb, r)
             }
             SendKind::Qos1 => {
                 let mut b = sink.publish(ByteString::from(spec.topic));
